@@ -14,13 +14,16 @@ MCLoad == { << <<"L","O","A","D">>, <<"\"","\"">>, <<"E","N","T","E","R">> >>,
             << <<"P","I">>, <<"C","S","+","6">>, <<"O","U","T">> >>,
             << <<"a","A","0">>, <<"S","S","+","C","S">> >>,
             << <<"C","S","+","S","S","+","a">> >>,
+            << <<"C","L","E","A","R">>, <<"3","4",":">>, <<"L","O","A","D">>, <<"\"","\"">>, <<"C","O","D","E">> >>,
+            << <<"D","E","F","F","N">>, <<"U+00A3", "U+00A9">>, <<"<","=">>, <<"D","O","W","N">> >>,
             << >> }
 MCPress == { << <<"s","*","2">>, <<"N","O","N","E">>, <<"E","N","T","E","R">> >>,
              << <<"C","S">>, <<"6">>, <<"S","P","A","C","E">> >>,
-             << <<"N","O","N","E","*","2">>, <<"0">> >> }
+             << <<"N","O","N","E","*","2">>, <<"0">> >>,
+             << <<"a">>, <<"a">>, <<"S","S">>, <<"p","*","3">>, <<"E","N","T","E","R">> >> }
 MCPorts == {RowPort(r) : r \in Rows} \cup {64766, 61182, 254, 65534, 65279, 65276, 32510, 31}
 \* 0xFCFE (rows 1,2), 0xEEFE (rows 1,5), 0x00FE (all), 0xFFFE (none), 0xFEFF (odd), 0xFEFC (even, not FE), 0x7EFE (rows 1,8), 0x001F
-MCGaps == {1, 2}
+MCGaps == {1, 2, 4}
 
 MCInit == /\ last = NoRead
           /\ \/ kind = "load" /\ \E ws \in MCLoad, g \in MCGaps : sched = Schedule(ws, g)
@@ -30,6 +33,12 @@ MCSpec == MCInit /\ [][MCNext]_kvars
 MCFair == MCSpec /\ WF_kvars(Frame) /\ \A r \in Rows : WF_kvars(ReadPort(RowPort(r)))
 
 MCCombine == CombineByAnd(MCPorts \cup {(h * 256) + 254 : h \in {0, 85, 170, 15, 240, 231, 126, 129}})
+\* vacuity guard (Keyboard_neg.cfg): a matrix that shows a key only when it is down in ALL selected half-rows (OR instead of
+\* AND) must violate MCCombine
+NegUp(down, rows, b) == ~(rows # {} /\ \A r \in rows : \E k \in down : RowOf(k) = r /\ BitOf(k) = b)
+NegKeyBits(down, rows) == (IF NegUp(down, rows, 0) THEN 1 ELSE 0) + (IF NegUp(down, rows, 1) THEN 2 ELSE 0)
+                        + (IF NegUp(down, rows, 2) THEN 4 ELSE 0) + (IF NegUp(down, rows, 3) THEN 8 ELSE 0)
+                        + (IF NegUp(down, rows, 4) THEN 16 ELSE 0)
 \* whoever scans all half-rows in every frame sees the whole schedule go by
 EventuallyDone == <>[]Done
 ASSUME MCDefined == \A ws \in MCLoad : WordsDefined(ws)
